@@ -325,6 +325,25 @@ theorem writes_are_concatenation (st : St) (pre ops : List Op) (h : Start st) (h
           (exec (exec st pre) ops).w.mem.byteAt a = (exec st pre).w.mem.byteAt a) :=
   writes_core pre ops h hnd hr hw i b0 hi hns
 
+/-- **What a writer operation stores is what it reports** (the `n` in `placed`): a successful
+    `write` stores the whole buffer and reports its length, a failing one stores nothing; a
+    successful `write_vectored` reporting `n` stores the first `n` bytes of the buffers in order;
+    `write_from(_at)` reporting `n ≤ count` stores the `n` bytes the scripted file delivered
+    (from its position, or from the given offset), a failing one stores nothing; a successful
+    `write_all_from(count)` stores `count` bytes of the file's stream.  (A failing
+    `write_all_from`/`write_vectored` may have stored a prefix: `placed` is that prefix.) -/
+theorem writer_ops_place_what_they_report (b : IoBufs) (w : World) (hp : 0 < w.p) (hwf : WF w.mem b.segs)
+    (hov : b.consumed + total b.segs < USIZE) (h : Nat) :
+    (∀ data n, (VirtioW.write b w data).res = .ok n → n = data.length ∧ writerIn b w (.wr h data) = data)
+    ∧ (∀ data e, (VirtioW.write b w data).res = .error e → writerIn b w (.wr h data) = [])
+    ∧ (∀ datas n, (VirtioW.writeVectored b w datas).res = .ok n → writerIn b w (.wv h datas) = datas.flatten.take n)
+    ∧ (∀ count at_ sc n, (VirtioW.writeFrom b w sc count at_).res = .ok n →
+        n ≤ count ∧ writerIn b w (.wf h count at_ sc) = patBytes sc.seed (at_.getD sc.pos) n)
+    ∧ (∀ count at_ sc e, (VirtioW.writeFrom b w sc count at_).res = .error e → writerIn b w (.wf h count at_ sc) = [])
+    ∧ (∀ count sc, (VirtioW.writeAllFrom b w sc count).res = .ok () →
+        writerIn b w (.wa h count sc) = patBytes sc.seed sc.pos count) :=
+  writerIn_reported b w hp hwf.inMem hov h
+
 /-- **Memory changes only where something was written**: after ANY operation list every byte
     whose address is not in the write log is as it was — with `accesses_in_bounds`: nothing
     outside the writable descriptors ever changes, and (`no_byte_written_twice`) space a writer
